@@ -17,8 +17,9 @@
 // (libstdc++ 12 has no <mdspan>): the calibration build.
 // -DVH_PART=k selects what is compiled (compile time): 0 = spans and every rank 0..2 pattern (index type int);
 // 1..5 = every rank 3 pattern whose first extent is D,0,1,2,3; 6 = a sample of rank 4 patterns; 7 = a sample of
-// patterns for the other index types (int8 ... uint64); 8 = extents constructors and submdspan_extents; 9 = operator== / != of
-// extents and of layout_left/right mappings on every pair of exported tuples.
+// patterns for the other index types (int8 ... uint64); 8 = extents constructors and submdspan_extents; 11 = extents converting constructors; 9 = operator== / != of
+// extents and of layout_left/right mappings on every pair of exported tuples; 10 = compact selection of all of the above for
+// instrumented (sanitizer) builds.
 #include "common.hpp"
 
 #include <array>
@@ -69,10 +70,11 @@ using Vec            = std::vector<long>;
 
 // ---- output ----------------------------------------------------------------------------------------
 std::string g_out;
-long g_events = 0, g_traps = 0;
+long g_events = 0, g_traps = 0, g_flushes = 0;
 
 void flush_out()
 {
+    ++g_flushes;
     size_t off = 0;
     while (off < g_out.size()) {
         ssize_t n = ::write(1, g_out.data() + off, g_out.size() - off);
@@ -164,22 +166,32 @@ inline void cpu_timer(long ms)
     tv.it_value.tv_usec = (ms % 1000) * 1000;
     setitimer(ITIMER_VIRTUAL, &tv, nullptr);
 }
+// (guarded regions nest: the outer jump buffer is restored on the way out)
 template <typename F>
 bool guarded(F&& f)
 {
-    g_armed = 1;
-    cpu_timer(2000);
+    sigjmp_buf saved;
+    std::memcpy(&saved, &g_jb, sizeof(sigjmp_buf));
+    sig_atomic_t const was = g_armed;
+    bool ok                = false;
+    g_armed                = 1;
+    cpu_timer(2000); // (re)armed for every region, inner or outer
     if (sigsetjmp(g_jb, 0) == 0) {
         f();
-        cpu_timer(0);
-        g_armed = 0;
-        return true;
+        ok = true;
+    } else {
+        ++g_traps;
     }
-    cpu_timer(0);
-    g_armed = 0;
-    ++g_traps;
-    return false;
+    cpu_timer(was ? 2000 : 0);
+    std::memcpy(&g_jb, &saved, sizeof(sigjmp_buf));
+    g_armed = was;
+    return ok;
 }
+
+// VH_DOMAIN_ONLY (sanitizer runs, property C02; every call this driver makes is inside the documented domain
+// anyway): each input line is processed inside a guarded region, and a stop by a sanitizer
+// (abort_on_error=1 -> SIGABRT), a signal or the watchdog becomes one {"op":"crash"} event instead of the end of the run
+bool g_domain_only = false;
 
 // ---- type names ----------------------------------------------------------------------------------------
 template <typename T>
@@ -936,21 +948,14 @@ void process(Line const& ln)
         if (rank == 1) {
             for_patterns<int, 1>(What::ctors, ln, false);
             for_patterns<int, 1>(What::subext, ln, false);
-            convert_all1<int, int>(ln.ext);
-            convert_all1<int, unsigned char>(ln.ext);
-            convert_all1<short, long>(ln.ext);
         }
         if (rank == 2) {
             for_patterns<int, 2>(What::ctors, ln, false);
             for_patterns<int, 2>(What::subext, ln, false);
             for_patterns<unsigned long, 2>(What::ctors, ln, false);
-            convert_all2<int, int>(ln.ext);
-            convert_all2<unsigned char, long>(ln.ext);
         }
         if (rank == 3) {
             for_patterns<int, 3>(What::ctors, ln, false);
-            convert_some3<int, int>(ln.ext);
-            convert_some3<unsigned short, long>(ln.ext);
             run_subext<md::extents<int, DYN, DYN, DYN>>(ln.ext);
             run_subext<md::extents<int, 2, 3, 1>>(ln.ext);
             run_subext<md::extents<int, 3, 3, 3>>(ln.ext);
@@ -958,6 +963,57 @@ void process(Line const& ln)
             run_subext<md::extents<int, DYN, 2, DYN>>(ln.ext);
             run_subext<md::extents<int, DYN, DYN, 2>>(ln.ext);
             run_subext<md::extents<unsigned long, 1, DYN, DYN>>(ln.ext);
+        }
+    }
+#elif VH_PART == 11
+    if (is_ext) {
+        if (rank == 1) {
+            convert_all1<int, int>(ln.ext);
+            convert_all1<int, unsigned char>(ln.ext);
+            convert_all1<short, long>(ln.ext);
+        }
+        if (rank == 2) {
+            convert_all2<int, int>(ln.ext);
+            convert_all2<unsigned char, long>(ln.ext);
+        }
+        if (rank == 3) {
+            convert_some3<int, int>(ln.ext);
+            convert_some3<unsigned short, long>(ln.ext);
+        }
+    }
+#elif VH_PART == 10
+    // compact selection for instrumented (sanitizer) builds, where the full pattern set is too expensive to compile
+    if (ln.k == "span") {
+        run_span(ln.n, ln.o, ln.c);
+        return;
+    }
+    {
+        What const w = is_ext ? What::dense : What::stride;
+        auto both    = [&]<typename E>(std::type_identity<E>) {
+            run_one<E>(w, ln, true);
+            if (is_ext) { run_one<E>(What::ctors, ln, false); }
+        };
+        both(std::type_identity<md::extents<int>>{});
+        both(std::type_identity<md::extents<int, DYN>>{});
+        both(std::type_identity<md::extents<int, 3>>{});
+        both(std::type_identity<md::extents<int, DYN, DYN>>{});
+        both(std::type_identity<md::extents<int, DYN, 2>>{});
+        both(std::type_identity<md::extents<int, 3, DYN>>{});
+        both(std::type_identity<md::extents<int, 2, 3>>{});
+        both(std::type_identity<md::extents<int, DYN, DYN, DYN>>{});
+        both(std::type_identity<md::extents<int, 2, DYN, 3>>{});
+        both(std::type_identity<md::extents<int, DYN, 3, DYN>>{});
+        both(std::type_identity<md::extents<int, 3, 2, 1>>{});
+        both(std::type_identity<md::extents<unsigned char, DYN, DYN>>{});
+        both(std::type_identity<md::extents<long, DYN, 2, DYN>>{});
+        if (is_ext) {
+            run_subext<md::extents<int, DYN, 2>>(ln.ext);
+            run_subext<md::extents<int, 2, DYN, 3>>(ln.ext);
+            run_subext<md::extents<int, DYN, DYN, DYN>>(ln.ext);
+            run_convert<md::extents<int, 3, DYN>, md::extents<long, DYN, DYN>>(ln.ext);
+            run_convert<md::extents<long, DYN, DYN>, md::extents<int, 3, DYN>>(ln.ext);
+            run_convert<md::extents<int, 2, DYN, 3>, md::extents<int, DYN, DYN, DYN>>(ln.ext);
+            run_convert<md::extents<int, DYN, DYN, DYN>, md::extents<short, 3, 2, 1>>(ln.ext);
         }
     }
 #elif VH_PART == 7
@@ -1015,7 +1071,8 @@ void* work(void* p)
     stack_t ss{};
     ss.ss_sp   = altstack;
     ss.ss_size = sizeof(altstack);
-    sigaltstack(&ss, nullptr);
+    g_domain_only = std::getenv("VH_DOMAIN_ONLY") != nullptr;
+    if (not g_domain_only) { sigaltstack(&ss, nullptr); } // (a sanitizer run time installs and owns its own alternate stack)
     sigset_t alrm;
     sigemptyset(&alrm);
     sigaddset(&alrm, SIGVTALRM);
@@ -1024,7 +1081,13 @@ void* work(void* p)
     sa.sa_handler = on_trap;
     sa.sa_flags   = SA_NODEFER | SA_ONSTACK;
     for (int s : {SIGFPE, SIGSEGV, SIGBUS, SIGVTALRM}) { sigaction(s, &sa, nullptr); }
-    for (int s : {SIGABRT, SIGILL}) { std::signal(s, on_fatal); }
+    for (int s : {SIGABRT, SIGILL}) {
+        if (g_domain_only) {
+            sigaction(s, &sa, nullptr);
+        } else {
+            std::signal(s, on_fatal);
+        }
+    }
 
     auto& a = *static_cast<Args*>(p);
     if (a.argc < 2) {
@@ -1045,10 +1108,30 @@ void* work(void* p)
             ln.c = j.at("c").get<long>();
         }
         if (ln.k == "ext") { all_exts.push_back(ln.ext); }
-        process(ln);
+        if (not g_domain_only) {
+            process(ln);
+            continue;
+        }
+        size_t mark        = g_out.size();
+        long const n0      = g_events;
+        long const flushes = g_flushes;
+        if (not guarded([&] { process(ln); })) {
+            if (g_flushes != flushes) {
+                mark = 0;
+            } else {
+                g_events = n0;
+            }
+            g_out.resize(mark < g_out.size() ? mark : g_out.size());
+            Ev e("crash");
+            e.str("k", ln.k.c_str()).arr("ext", ln.ext).arr("sin", ln.strides).num("n", ln.n).num("o", ln.o).num("c", ln.c).end();
+            flush_out();
+        }
     }
 #if VH_PART == 9
     run_eq_all(all_exts);
+#elif VH_PART == 10
+    eq_square<md::extents<int, DYN, DYN>, md::extents<int, 3, DYN>, md::extents<long, 2, 3>>(all_exts);
+    eq_square<md::extents<int, DYN, DYN, DYN>, md::extents<int, 2, DYN, 3>>(all_exts);
 #endif
     flush_out();
     std::fprintf(stderr, "SUMMARY part=%d events=%ld traps=%ld\n", int(VH_PART), g_events, g_traps);
